@@ -55,15 +55,28 @@ def isS1 : SP → Bool
   | _ => false
 
 /-- the invariant that ties the monitor to the state of the stream (a function of the few fields it mentions) -/
-def JF (p : SP) (bad attached pt : Bool) (cs : CS) (ss : SS) (paused : Option K) : Bool :=
+def JF (p : SP) (bad attached pt hasFlow : Bool) (cs : CS) (ss : SS) (paused : Option K) : Bool :=
   bad ||
   (pAtt p attached
+   && imp (paused.isSome || cs != .waitHdr) hasFlow
    && imp (cs == .stream) (isS1 p)
    && imp (cs == .waitHdr || cs == .consume || cs == .uninit) (!attached)
    && imp (paused.isNone && !pt && cs == .done && !attached) (ss == .done || ss == .errored)
    && (match paused with | none => true | some k => pOK cs attached k))
 
-def J (p : SP) (c : Core) : Bool := JF p c.bad c.attached c.pt c.cs c.ss c.paused
+def J (p : SP) (c : Core) : Bool := JF p c.bad c.attached c.pt c.hasFlow c.cs c.ss c.paused
+
+@[simp] theorem adv_send_true (p : SP) (t : Tag) : adv p (.send true t) = p := rfl
+@[simp] theorem adv_hook (p : SP) (h : Hook) : adv p (.hook h) = p := rfl
+@[simp] theorem adv_drop (p : SP) : adv p .drop = p := rfl
+@[simp] theorem adv_getConn (p : SP) : adv p .getConn = p := rfl
+@[simp] theorem adv_openConn (p : SP) : adv p .openConn = p := rfl
+@[simp] theorem adv_closeServer (p : SP) : adv p .closeServer = p := rfl
+@[simp] theorem adv_crash (p : SP) : adv p .crash = p := rfl
+@[simp] theorem adv_streamStart (p : SP) : adv p .streamStart = p := rfl
+@[simp] theorem foldl_adv_ite (p : SP) (b : Bool) (o : Out) :
+    List.foldl adv p (if b = true then [o] else []) = if b = true then adv p o else p := by
+  cases b <;> rfl
 
 theorem J_fin (p : SP) (q : Bool) (w : W) : J p (W.fin q w).c = J p w.c := rfl
 
@@ -73,21 +86,24 @@ macro_rules
       (simp only [resume, handlePE, peAfter, killedFire, killedSilent, sendResponse, startRequestStream, cbsErrFire,
         connectFinish, flowDone, onReqHeaders, clientEvent, serverEvent, ↓reduceIte, Bool.false_eq_true, reduceCtorEq] <;>
        (repeat' split) <;>
-       (simp [J, JF, pOK, pAtt, isS1, imp, fire, fireC, mk, crash, W.pre, outIf, connectSends, killFinishC, peRetC, adv, srvStep,
+       (simp [J, JF, pOK, pAtt, isS1, imp, fire, fireC, mk, crash, W.pre, outIf, connectSends, killFinishC, peRetC,
           List.foldl_append, *] at * <;>
         (first | done |
-          (cases $p:ident <;> cases hcs : Core.cs $d <;> cases hss : Core.ss $d <;> cases hrt : Core.reqTrailers $d <;> cases hrb : Core.reqBody $d <;> simp_all [adv, srvStep, pAtt, isS1] <;>
-            (try (repeat' split) <;> simp_all [adv, srvStep, pAtt, isS1]))))))
+          (cases $p:ident <;> cases hcs : Core.cs $d <;> cases hss : Core.ss $d <;>
+            simp_all [adv, srvStep, pAtt, isS1] <;> (first | done | grind))))))
 
 set_option maxHeartbeats 8000000 in
 theorem j_resume (p : SP) (d : Core) (k : K) (ok peek : Bool) (hp : d.paused = none) (hb : d.bad = false)
-    (h : JF p false d.attached d.pt d.cs d.ss (some k) = true) :
+    (h : JF p false d.attached d.pt d.hasFlow d.cs d.ss (some k) = true) :
     J ((resume d k ok peek).out.foldl adv p) (resume d k ok peek).c = true := by
   cases k
   case peErr r ret => cases r <;> cases ret <;> j_tree d p
   case streamConn b => cases b <;> j_tree d p
   case cbsHdr b => cases b <;> j_tree d p
   case cbsErr b => cases b <;> j_tree d p
+  case requestHookStream => cases hrt : d.reqTrailers <;> j_tree d p
+  case conn => cases hrt : d.reqTrailers <;> cases hrb : d.reqBody <;> j_tree d p
+  case responseHook a => cases a <;> cases hsb : d.respBody <;> cases hst : d.respTrailers <;> j_tree d p
   all_goals j_tree d p
 
 end MitmVerif.C03
